@@ -578,6 +578,28 @@ impl ExecutionStatuses {
     }
 }
 
+/// Verification hooks: public constructors/updaters for crate-private pure functions.
+#[cfg(feature = "verif-hooks")]
+impl ExecutionStatuses {
+    /// Builds the statuses of one test from its attempts (must be non-empty).
+    pub fn verif_new(statuses: Vec<ExecuteStatus>) -> Self {
+        Self::new(statuses)
+    }
+}
+
+#[cfg(feature = "verif-hooks")]
+impl RunStats {
+    /// Runs `on_test_finished`.
+    pub fn verif_on_test_finished(&mut self, run_statuses: &ExecutionStatuses) {
+        self.on_test_finished(run_statuses)
+    }
+
+    /// Runs `on_setup_script_finished`.
+    pub fn verif_on_setup_script_finished(&mut self, status: &SetupScriptExecuteStatus) {
+        self.on_setup_script_finished(status)
+    }
+}
+
 /// A description of test executions obtained from `ExecuteStatuses`.
 ///
 /// This can be used to quickly determine whether a test passed, failed or was flaky.
